@@ -100,8 +100,61 @@ def classify(stream, case, out):
     kv = dict(x.split('=') for x in case.split(' ;; ')[0].split())
     return 'rot=%s pre=%s suf=%s max=%s par=%s' % (kv['rot'], 'y' if kv['pre'] != '-' else 'n', 'y' if kv['suf'] != '-' else 'n', kv['max'], 'y' if 'par ' in case else 'n')
 
+def _parse_ls(tok):
+    files = {}
+    if tok != '-':
+        for ent in tok.split(','):
+            n, c = ent.split('=')
+            files[bytes.fromhex(n).decode()] = (b'' if c == '-' else bytes.fromhex(c)).decode().splitlines(True)
+    return files
+
+def model_match(case, model, impl):
+    """The model linearises a `par` step as "rotate, then every thread writes".  The real threads that lose the election (or
+    arrive after the deadline moved) take the writer without waiting for the winner's refresh, so their lines may still land in
+    the file being replaced — which the property allows ("may still land in the file being replaced") — and share that file's
+    fate when the limit prunes it.  Everything else must be equal: tokens, file names, every non-`par` line, and each `par`
+    line exactly once in the new file or the replaced one (absent only if the replaced file is no longer listed)."""
+    if model == impl: return True
+    head, opsS = case.split(' ;; ')
+    kv = dict(x.split('=') for x in head.split())
+    rot = kv['rot']
+    mt, it = model.split(' '), impl.split(' ')
+    ops = opsS.split(' ; ')
+    if len(mt) != len(it) or len(mt) != len(ops) or rot == 'n': return False
+    P = PERIOD[rot]
+    t = int(kv['t0']); deadline = (t // P + 1) * P; cur = name_for(rot, kv['pre'], kv['suf'], t)
+    steps = []        # (replaced file, new file, n) of every rotating par step so far
+    for op, m, a in zip(ops, mt, it):
+        w = op.split()
+        if w[0] == 't': t = int(w[1])
+        if w[0] in ('w', 'mw', 'par') and t >= deadline:
+            new = name_for(rot, kv['pre'], kv['suf'], t)
+            if w[0] == 'par': steps.append((cur, new, int(w[1])))
+            cur = new; deadline = (t // P + 1) * P
+        if w[0] != 'ls':
+            if m != a: return False
+            continue
+        mf, af = _parse_ls(m), _parse_ls(a)
+        if sorted(mf) != sorted(af): return False
+        diff = {}       # (file, line) -> impl count - model count
+        for f in mf:
+            if [l for l in mf[f] if not l.startswith('P')] != [l for l in af[f] if not l.startswith('P')]: return False
+            for l in af[f]:
+                if l.startswith('P'): diff[(f, l)] = diff.get((f, l), 0) + 1
+            for l in mf[f]:
+                if l.startswith('P'): diff[(f, l)] = diff.get((f, l), 0) - 1
+        for old, new, n in steps:
+            for i in range(n):
+                l = 'P%d\n' % i
+                if diff.get((new, l), 0) < 0 and (old not in mf or diff.get((old, l), 0) > 0):
+                    diff[(new, l)] += 1
+                    if old in mf: diff[(old, l)] -= 1
+        if any(v != 0 for v in diff.values()): return False
+    return True
+
 _s = Stream('clock', 'h_rolling', gen=gen, per_process=True, nontrivial=nontrivial)
 _s.py_judge = judge
+_s.model_match = model_match
 
 PROPERTY = {
     'manifest': {
